@@ -1,5 +1,6 @@
 import re
 from copy import deepcopy
+from fractions import Fraction
 from xml.sax.saxutils import escape, quoteattr
 
 from bs4 import BeautifulSoup, NavigableString
@@ -196,13 +197,15 @@ class DFXPReader(BaseReader):
             microseconds += (int(sub_frames) * MICROSECONDS_PER_UNIT["seconds"]
                              // 10 ** len(sub_frames))
         elif clock_time_match.group('frames'):
-            microseconds += int(clock_time_match.group('frames')) / 30 * \
-                            MICROSECONDS_PER_UNIT["seconds"]
-        return int(microseconds)
+            microseconds += int(clock_time_match.group('frames')) * \
+                            MICROSECONDS_PER_UNIT["seconds"] // 30
+        return microseconds
 
     @staticmethod
     def _convert_time_count_to_microseconds(time_count_match):
-        value = float(time_count_match.group('time_count'))
+        # exact decimal value: float arithmetic lands one microsecond short
+        # for counts such as "2.3h" or "123f"
+        value = Fraction(time_count_match.group('time_count'))
         metric = time_count_match.group("metric")
         if metric == "h":
             microseconds = value * MICROSECONDS_PER_UNIT["hours"]
